@@ -9,8 +9,12 @@ import (
 	"bytes"
 	"context"
 	"fmt"
+	"github.com/gopacket/gopacket"
+	"github.com/gopacket/gopacket/layers"
+	"github.com/gopacket/gopacket/pcapgo"
 	"io"
 	"log"
+	"net"
 	"os"
 	"path/filepath"
 	"slices"
@@ -1516,11 +1520,15 @@ func (r *vsRun) finalChecks() {
 		r.detachPhase()
 	}
 	if r.cfg.focus == "C10" {
+		fed := r.pcapOverIPPhase()
 		v := &vsView{v: r.e.mgr.GetView()}
 		if _, err := v.v.ReferenceTime(); err != nil {
 			r.fatalf("view: %v", err)
 		}
-		r.checkViewComplete(v)
+		if !fed {
+			// (the captures the service writes for packets received over PCAP-over-IP have names of their own)
+			r.checkViewComplete(v)
+		}
 		r.checkViewCompleteMode(v, true)
 		v.v.Release()
 		_ = r.e.inLoop(func() {})
@@ -1536,6 +1544,121 @@ func (r *vsRun) finalChecks() {
 	if r.cfg.focus == "C13" {
 		r.checkFilesAndLocks()
 	}
+}
+
+// pcapOverIPPhase hands the captures that were not uploaded during the history to the service as one
+// PCAP-over-IP stream: a local peer serves their packets, the endpoint is added, and once the endpoint has
+// received everything it is removed again. The service writes capture files of its own for what it received
+// and imports them; when that has settled a fresh view must show those conversations like uploaded ones.
+func (r *vsRun) pcapOverIPPhase() bool {
+	var rest []int
+	for i := 0; i < r.tr.captures(); i++ {
+		if _, ok := r.tr.Written[i]; !ok {
+			rest = append(rest, i)
+		}
+	}
+	if len(rest) == 0 {
+		return false
+	}
+	var stream bytes.Buffer
+	w := pcapgo.NewWriter(&stream)
+	if err := w.WriteFileHeader(65536, layers.LinkTypeIPv4); err != nil {
+		r.fatalf("harness: %v", err)
+	}
+	n := 0
+	for _, i := range rest {
+		for _, p := range r.tr.Packets[r.tr.Cuts[i]:r.tr.Cuts[i+1]] {
+			data, _ := veSerializeUDP(r.tr.Flows[p.Flow], p.Dir, p.Payload)
+			ci := gopacket.CaptureInfo{Timestamp: r.tr.Base.Add(p.Off), CaptureLength: len(data), Length: len(data)}
+			if err := w.WritePacket(ci, data); err != nil {
+				r.fatalf("harness: %v", err)
+			}
+			n++
+		}
+	}
+	ln, err := net.Listen("tcp", "127.0.0.1:0")
+	if err != nil {
+		r.fatalf("harness: listen: %v", err)
+	}
+	defer ln.Close()
+	hold := make(chan struct{})
+	defer close(hold)
+	go func() {
+		conn, err := ln.Accept()
+		if err != nil {
+			return
+		}
+		defer conn.Close()
+		_, _ = conn.Write(stream.Bytes())
+		<-hold
+	}()
+	addr := ln.Addr().String()
+	if r.apiCall("AddPcapOverIPEndpoint", func() error { return r.e.mgr.AddPcapOverIPEndpoint(addr) }) != nil {
+		r.fatalf("the PCAP-over-IP endpoint %s cannot be added", addr)
+	}
+	deadline := time.Now().Add(20 * time.Second)
+	for received := uint(0); received < uint(n); {
+		if time.Now().After(deadline) {
+			r.fatalf("the PCAP-over-IP endpoint received %d of the %d packets its peer sent within 20s", received, n)
+		}
+		time.Sleep(5 * time.Millisecond)
+		for _, ep := range r.e.mgr.ListPcapOverIPEndpoints() {
+			if ep.Address == addr {
+				received = ep.ReceivedPackets
+			}
+		}
+	}
+	for _, i := range rest {
+		if r.tr.Written == nil {
+			r.tr.Written = map[int]string{}
+		}
+		r.tr.Written[i] = fmt.Sprintf("cap%02d.pcap", i) // what the model calls it; the service picks names of its own
+	}
+	r.log("captures %v received over PCAP-over-IP (%d packets)", rest, n)
+	if r.apiCall("DelPcapOverIPEndpoint", func() error { return r.e.mgr.DelPcapOverIPEndpoint(addr) }) != nil {
+		r.fatalf("the PCAP-over-IP endpoint %s cannot be removed", addr)
+	}
+	// the packet handler writes a capture for the first packet at once and one for the rest when the import queue has
+	// drained: deliver what parks until the service knows all packets
+	all := map[string]bool{}
+	for _, name := range r.tr.Written {
+		all[name] = true
+	}
+	want := r.expectedStreams(all)
+	for {
+		if _, err := r.e.settle(200, nil); err != nil {
+			r.fatalf("settle after PCAP-over-IP: %v", err)
+		}
+		streams := 0
+		_ = r.e.inLoop(func() { streams = int(r.e.mgr.nextStreamID) })
+		if streams >= len(want) {
+			// one more round: the last capture may still be on its way from the handler to the import queue
+			time.Sleep(30 * time.Millisecond)
+			if _, err := r.e.settle(200, nil); err != nil {
+				r.fatalf("settle after PCAP-over-IP: %v", err)
+			}
+			var known int
+			_ = r.e.inLoop(func() { known = int(r.e.mgr.builder.PacketCount()) })
+			if known >= r.packetsHandedOver() {
+				break
+			}
+		}
+		if time.Now().After(deadline.Add(20 * time.Second)) {
+			break // the completeness check below says what is missing
+		}
+		time.Sleep(10 * time.Millisecond)
+	}
+	r.c.Label("captures-received-over-pcap-over-ip")
+	return true
+}
+
+// packetsHandedOver counts the capture records of everything given to the service (uploads: fragments count one by one).
+func (r *vsRun) packetsHandedOver() int {
+	n := 0
+	for i := range r.tr.Written {
+		n += r.tr.Cuts[i+1] - r.tr.Cuts[i]
+	}
+	return n + r.tr.Fragmented
 }
 
 // checkFilesAndLocks is the quiescence clause of C13 (call with all views released and nothing parked): the index
